@@ -168,9 +168,11 @@ def materialised(res):
     finally:
         if root in sys.path:
             sys.path.remove(root)
+        tops = {k.split(".")[0] for k in before}
         for k in set(sys.modules) - before:
             mod = sys.modules.get(k)
-            if getattr(mod, "__file__", None) and str(mod.__file__).startswith(root):
+            f = getattr(mod, "__file__", None)
+            if (f and str(f).startswith(root)) or k.split(".")[0] not in tops:
                 del sys.modules[k]
         shutil.rmtree(root, ignore_errors=True)
 
